@@ -32,11 +32,20 @@ def _neigh(v, span, transp):
                 yield v[:i] + b + a + v[i + 2:], 'swap:digit'
 
 
+def _valid_under(m, v, o):
+    # valid with this option: validate() does not reject it (the result may be another form: ISBN-10 with convert=True)
+    try:
+        m.validate(v, **o)
+        return True
+    except Exception:
+        return False
+
+
 def _check_number(res, name, m, v, spanf, transp, optsets=({},)):
     n = 0
     t = transp(v) if callable(transp) else transp
     # the statement is about a number that is valid: under an option only where v is valid with that option
-    optsets = [o for o in optsets if not o or e2._accepts(m, v, o)]
+    optsets = [o for o in optsets if not o or _valid_under(m, v, o)]
     for w, kind in _neigh(v, list(spanf(v)), t):
         for opts in optsets:
             n += 1
@@ -160,18 +169,7 @@ def replay(case):
     res = Result()
     v, w = case['valid'], case['mutant']
     opts = {k: core.dec(x) for k, x in case.get('options', {}).items()}
-    try:
-        if opts:
-            m.validate(v)
-            m.validate(w, **opts)
-            both = True
-        else:
-            both = m.is_valid(v) and m.is_valid(w)
-        if both:
-            kind = 'swap:digit' if sorted(v) == sorted(w) and v != w and sum(a != b for a, b in zip(v, w)) == 2 else \
-                'sub:' + ('digit' if [b for a, b in zip(v, w) if a != b][0] in e2.D else 'letter')
-            res.viol(ID, 'accepted-mutant', name, 'is_valid' if not opts else 'validate', case, 'both accepted',
-                     'mutant rejected', excinfo='+'.join(sorted(opts)), devclass=kind + ':len%d' % len(v))
-    except Exception:
-        pass
-    return res['violations']
+    # the same evaluation as in the search, restricted to the positions where the recorded mutant differs
+    diff = [i for i, (a, b) in enumerate(zip(v, w)) if a != b]
+    _check_number(res, name, m, v, lambda x: diff, len(diff) == 2, (opts,))
+    return [x for x in res['violations'] if x['case']['mutant'] == w][:1]
